@@ -45,7 +45,7 @@ def gen_attach(r, tier):
 class C02(Prop):
     id = "C02"
     lean_modules = ["Fan2go.Props.C02"]
-    fact_modules = ["Fan2go.Props.Facts", "Fan2go.Props.Trans", "Fan2go.Props.Trans3A", "Fan2go.Props.Trans3B"]
+    fact_modules = ["Fan2go.Props.Facts", "Fan2go.Props.Trans", "Fan2go.Props.Trans3A", "Fan2go.Props.Trans3B", "Fan2go.Props.Trans3Fan"]
     rule = ("ctrl-stall: neverStop fans (hwmon with configured or measured minimum, file, cmd) x all loops x event lists with "
             "stall episodes (RPM 0 while the request is unchanged) forced in most lists; ctrl: the general controller stream; ctrl-attach: "
             "limits installed from measured data on top of the 8 configuration combinations (w.attach), floor recomputed by the oracle. "
